@@ -213,6 +213,26 @@ def fulfill_all(ctx):
                 if mp in PENDING and has_set:
                     hb = [b.id for b in f.blocks.values() if b.term and b.term.get("s") == st["id"]]
                     loops.setdefault(mp, set()).update(hb)
+        # the satisfy-loop may live in a local lambda that is called once per map with the map as argument
+        for st in f.stmts.values():
+            if st["k"] == "CXXOperatorCallExpr" and st.get("op") == "()":
+                g = f.unit.fn_by_id.get((st.get("callee") or {}).get("id"))
+                if g is None or not g.is_lambda:
+                    continue
+                for ls in g.stmts.values():
+                    if ls["k"] != "CXXForRangeStmt":
+                        continue
+                    rp = path(g, g.s(ls.get("range_init"))) if ls.get("range_init") else None
+                    has_set = any(d["k"] == "CXXMemberCallExpr" and d["callee"]["name"] == "set_value"
+                                  for d in g.descendants(g.s(ls["body"])))
+                    if not (rp and rp.startswith("p:") and has_set):
+                        continue
+                    idx = [i for i, pr in enumerate(g.params) if "p:" + pr["name"] == rp]
+                    if idx and idx[0] + 1 < len(st["args"]):
+                        ap = path(f, f.s(st["args"][idx[0] + 1])) or ""
+                        pos = f.pos_of(st)
+                        if ap.startswith("this.") and ap[5:] in PENDING and pos:
+                            loops.setdefault(ap[5:], set()).add(pos[0])
         for mp in PENDING:
             if mp not in loops:
                 ctx.ob(rid, False, f.where, "fulfillAllPromises has a satisfy-loop over %s" % mp, "no range-for with set_value over it",
